@@ -32,17 +32,27 @@ def rule_same_gate(ctx, f):
         i, pl, arms, other = sws[0]
         regs = exclusive_regions(cfg, {xv[k]: tg for k, tg in arms.items()})
         flag_arg = [k for k in range(1, b["argc"] + 1) if b["locals"][k]["s"] == "parser::ParseFlags"]
+        parsers = {"parse_indirect_object", "parse", "parse_with_lexer", "parse_with_lexer_ctx"}
+
+        def flag_uses(body, blocks, params, depth=0):
+            """names of the functions the caller's filter is handed to; private helpers of the crate are looked through"""
+            bfl = Flow(body)
+            out = []
+            for r, t in (region_calls(body, blocks) if blocks is not None else [(bi, t) for bi, t in F.calls(body)]):
+                for k, a in enumerate(t["args"]):
+                    l = F.op_local(a)
+                    if l is not None and any(x[0] == "arg" and x[1] in params for x in bfl.origins(l, passthrough=("clone",))):
+                        nm = last_seg(F.callee_name(t))
+                        cal = f.bodies.get(t.get("resolved") or "")
+                        if nm not in parsers and cal is not None and t.get("resolved_local") and depth < 3 and not cal.get("pub"):
+                            out += flag_uses(cal, None, [k + 1], depth + 1)
+                        else:
+                            out.append(nm)
+            return out
         uses = {}
         for vn in ("Raw", "Stream"):
             reg = regs.get(vn, set()) | {arms[[k for k in arms if xv[k] == vn][0]]}
-            us = []
-            for r, t in region_calls(b, reg):
-                for k, a in enumerate(t["args"]):
-                    l = F.op_local(a)
-                    if l is not None and any(x[0] == "arg" and x[1] in flag_arg for x in fl.origins(l, passthrough=("clone",))):
-                        us.append(last_seg(F.callee_name(t)))
-            uses[vn] = sorted(us)
-        parsers = {"parse_indirect_object", "parse", "parse_with_lexer", "parse_with_lexer_ctx"}
+            uses[vn] = sorted(flag_uses(b, reg, flag_arg))
         for vn in ("Raw", "Stream"):
             extra = [u for u in uses[vn] if u not in parsers]
             ok = any(u in parsers for u in uses[vn]) and not extra
